@@ -14,7 +14,7 @@ from checks.common.history import Failure, explore
 PROP = 'C01'
 LEVEL = 'exploration'
 SHARDS = {'quick': 4, 'thorough': 16}
-BUDGET_S = {'quick': 40, 'thorough': 420}
+BUDGET_S = {'quick': 150, 'thorough': 420}
 RULE = ('seeded random histories of OMD operations (1-60 ops quick, to 200 thorough) over 6 keys / 6 '
         'values with argument shapes list/tuple/one-shot iterator/dict/OMD/self/kwargs; after every op '
         'the full read vector is compared with a list-of-pairs model; distinct = distinct model '
@@ -645,7 +645,7 @@ class Check(object):
 
 
 def run(ctx):
-    n = {'quick': 1500, 'thorough': 12000}[ctx.tier]
+    n = {'quick': 1000, 'thorough': 12000}[ctx.tier]
     explore(ctx, Check('OMD'), n, 'omd')
     if ctx.thorough:
         explore(ctx, Check('QueryParamDict'), n // 4, 'qpd')
